@@ -10,6 +10,10 @@ def handle_cell(cell: Cell, titles: Dict[str, int]):
     if cell.has_handled_identifiers():
         return
 
+    if isinstance(cell.title, bool) or not isinstance(cell.title, (int, str)):
+        # True or 1.0 would slip through as the uids _True_0_0 / _1.0_0_0, which name no member of any class
+        raise E2PyclCellException(f'A worksheet is named by its title or its number, not by a {type(cell.title).__name__}: {cell}')
+
     if isinstance(cell.title, str):
         if cell.title not in titles:
             raise E2PyclCellException(f'There is no worksheet with the title of {cell}')
